@@ -335,9 +335,9 @@ prop('C04',
           'Second stream: EBNF grammars generated as ASTs are compiled by lark and, independently, hand-desugared into plain BNF with explicit inlined helper rules; on acyclic pairs the '
           'expanded explicit-ambiguity tree sets of the two must be equal (derivations lost or invented by EBNF compilation are invisible to the first stream, which starts from the compiled rules); '
           'the region of finding F24 (two vanishing alternatives with different aliases) is computed from the AST and only there may the EBNF set be a proper subset. '
-          'Non-trivial = more than one derivation, or a cyclic grammar; distinct by canonical hash.',
+          'Non-trivial = more than one derivation, or a cyclic grammar; distinct by canonical hash. Third stream (ambiguity inside terminals): random acyclic grammars over regexp terminals (truncation-closed pool, outside F6) under dynamic_complete; all derivations of the character lattice (every member prefix of every terminal at every offset, ignored text skipped between tokens) are enumerated by a lattice-level oracle and compared with the expanded explicit result as sets of trees with token types, texts and offsets.',
      not_proved=['soundness of the forest (every encoded tree is a derivation) and the AmbiguousExpander/AmbiguousIntermediateExpander lifting are compared against the brute-force enumeration, not proved',
-                 'intra-terminal ambiguity under dynamic_complete is not generated (single-character terminals)', 'for cyclic grammars only termination is observed'],
+                 'for cyclic grammars only termination is observed'],
      assumptions=['the brute-force enumerator (Python, oracle_derivs.py) is an independent oracle, not part of the proof chain'],
      level_text='Theorems: every derivation of the input has all its dotted positions among the chart facts, i.e. every node and packed family of every derivation is in the forest (completeness, for all grammars and lattices); the shaped tree of a '
                 'derivation is the documented shaping (C03). The explicit-ambiguity result is compared with the Lean-shaped brute-force derivation set.',
